@@ -69,11 +69,34 @@ class WakeSummaries:
         self.facts = facts
         self.memo = {}
 
+    def may_take(self, fname, field, depth=2):
+        """cheap prefilter: does the function (or a local callee, to `depth`) call Option::take on the field?"""
+        key = ("may", fname, field, depth)
+        if key in self.memo:
+            return self.memo[key]
+        self.memo[key] = False
+        body = self.facts.body(fname)
+        r = False
+        if body is not None:
+            for t in body.calls():
+                if is_take_on(body, t, field):
+                    r = True
+                    break
+            if not r and depth > 0:
+                for t in body.calls():
+                    if t.j.get("res_local") and t.resolved != fname and self.may_take(t.resolved, field, depth - 1):
+                        r = True
+                        break
+        self.memo[key] = r
+        return r
+
     def always_wakes(self, fname, field):
         key = (fname, field)
         if key in self.memo:
             return self.memo[key]
         self.memo[key] = False  # recursion guard
+        if not self.may_take(fname, field):
+            return False
         body = self.facts.body(fname)
         if body is None:
             return False
